@@ -244,7 +244,11 @@ def evaluate(pid, outdir, batch):
     if len(verdicts) != len(lines):
         batch.crashed = f"driver answered {len(verdicts)} verdicts for {len(lines)} lines"
         return batch
-    for line, v in zip(lines, verdicts):
+    last_reset = None
+    for idx, (line, v) in enumerate(zip(lines, verdicts)):
+        if line == "reset" or line.startswith("reset "):
+            last_reset = idx
+        case = lines[last_reset:idx + 1] if last_reset is not None else [line]
         body = v.split(" ", 1)[1] if " " in v else v
         batch.lines += 1
         h = hashlib.blake2b(case_key(line).encode(), digest_size=8).digest()
@@ -255,11 +259,11 @@ def evaluate(pid, outdir, batch):
                 batch.samples.append(line)
         elif body.startswith("SPECFAIL"):
             m = re.match(r"SPECFAIL class=(\S+)", body)
-            batch.specfails.append((m.group(1) if m else "?", line, body))
+            batch.specfails.append((m.group(1) if m else "?", case, body))
         elif body.startswith("DIFF"):
-            batch.diffs.append((line, body))
+            batch.diffs.append((case, body))
         else:
-            batch.bad.append((line, body))
+            batch.bad.append((case, body))
     try:
         st = json.load(open(os.path.join(outdir, "stats.json")))
         for k, v in st.get("dist", {}).items():
@@ -399,9 +403,9 @@ def main(argv):
         if cls in open_classes:
             known_hit[cls] = items
             continue
-        items.sort(key=lambda x: len(x[0]))
+        items.sort(key=lambda x: (len(x[0]), sum(len(l) for l in x[0])))
         path = write_replay(pid, f"{'replayed' if a.replay else 'violation'}_{re.sub(r'[^A-Za-z0-9_.-]', '_', cls)}.ops",
-                            [items[0][0]],
+                            items[0][0],
                             [f"property {pid}: Spec clause {cls} is false of what the implementation did",
                              items[0][1][:400], f"{len(items)} failing case(s) in this run; shortest shown",
                              f"replay: ./check {pid} --replay <this file>"])
@@ -410,7 +414,7 @@ def main(argv):
         broken.append(f"correspondence: model and implementation differ on {len(batch.diffs)} op(s), "
                       f"{len(batch.bad)} unreadable")
     if broken and not violations:
-        lines = [l for l, _ in (batch.diffs + batch.bad)[:20]]
+        lines = [l for c, _ in (batch.diffs + batch.bad)[:5] for l in c]
         hdr = [f"property {pid}: no longer shown to hold — broken obligation(s) / correspondence:"] + \
               [b[:600] for b in broken] + \
               ["model output per differing op:"] + [f"{b[:300]}" for _, b in (batch.diffs + batch.bad)[:20]] + \
